@@ -289,3 +289,11 @@ MANIFEST_ENTRY = dict(
     note='Bounded skeleton family (tier B), floats as reals, set order as given by CPython; planners consuming the arrays are covered by C01/C02.',
 )
 END_MANIFEST_ENTRY = True
+
+
+SENTINELS = globals().get('SENTINELS', []) + [
+    Sentinel('reachability-expands-absorbing-states', 'msdm.core.mdp.mdp', '                    if ns not in visited and not self.is_absorbing(ns):\n',
+             '                    if ns not in visited:\n', ['re:^arrays/k3-absorbing-successor-outside']),
+    Sentinel('reward-matrix-negated', 'msdm.core.mdp.tabularmdp', '                    rf[si, ai, nsi] = self.reward(s, a, ns)',
+             '                    rf[si, ai, nsi] = -self.reward(s, a, ns)', ['re:^arrays/s3-branch']),
+]
